@@ -400,7 +400,44 @@ def main():
                           'broken': 'sequential correspondence S (' + src + ')'}))
         break
 
-    for k, v in known_hits[:5]:
+    # a proof or the correspondence broke without a concrete failing input so far: search for one
+    # (deeper runs of the same scopes with other seeds, time-capped); never replaces the report above
+    if problems and not any(p[0] == 'oracle' for p in problems) and not os.environ.get('VERIF_NO_SEARCH'):
+        budget = 240 if tier == 'quick' else 900
+        ts = time.time()
+        found = None
+        for rnd in range(3):
+            for g in geoms:
+                if not built.get(g) or found: continue
+                for ri, run in enumerate(spec['runs']['thorough'] + spec['runs']['quick']):
+                    if time.time() - ts > budget or found: break
+                    r = run_scope(prop, g, run, seed * 1000 + 500 + 37 * rnd + ri, f's{ri}')
+                    if r.get('error'): continue
+                    for v in r['violations']:
+                        if v['prop'] in spec['oracles'] and not is_known(v['prop'], v['msg'], known):
+                            pre = None if 'schedule' in v else history_prefix(r['base'], r['summary'], v['line'] - 1)
+                            found = (g, v, pre, ' '.join(run['args']))
+                            break
+        if found:
+            g, v, pre, src = found
+            if 'schedule' in v:
+                problems.append(('oracle', f"{v['prop']}: {v['msg']}",
+                                 {'kind': 'schedule', 'geom': g, 'scenario': v['scenario'], 'schedule': v['schedule'],
+                                  'violation': {'prop': v['prop'], 'msg': v['msg']}, 'source': 'search: ' + src,
+                                  'replay_cmd': f'python3 check.py {prop} --replay <this file>'}))
+            else:
+                def pred2(lines, g=g, v=v):
+                    _, s2 = exec_lines(g, lines)
+                    return any(x['prop'] == v['prop'] for x in s2.get('violations', []))
+                small = shrink(g, pre, pred2) if pre and len(pre) > 3 else pre
+                problems.append(('oracle', f"{v['prop']}: {v['msg']}",
+                                 {'kind': 'oracle', 'geom': g, 'request_lines': small, 'violation': v, 'source': 'search: ' + src,
+                                  'replay_cmd': f'python3 check.py {prop} --replay <this file>'}))
+
+    seen_known = set()
+    for k, v in known_hits:
+        if k['id'] in seen_known: continue
+        seen_known.add(k['id'])
         print(f"KNOWN-FINDING: property={prop} {k['id']}: {v['msg']}")
 
     wall = round(time.time() - t0, 2)
